@@ -48,7 +48,7 @@ def display_tables(crate):
     return out
 
 
-def fold_summary(crate, body, lhid, rhid):
+def fold_summary(crate, body, lhid, rhid, fn=None):
     """Summarize the folding operation of an arm body: ('call', name, order_ok) / ('bin', op, order_ok) / ('un', op) / ('id',)."""
     vals = list(H.value_exprs(body))
     if len(vals) != 1:
@@ -60,8 +60,23 @@ def fold_summary(crate, body, lhid, rhid):
     while v.get('k') == 'Call' and v.get('dk') == 'Ctor' and len(v['args']) == 1:
         v = H.strip_refs(v['args'][0])
 
+    tried = []
+
     def hid(e):
         rl = H.root_local(e)
+        # an operand converted first and bound to a local (`let count: u32 = r.try_into()?;`) is still that operand
+        for _ in range(4):
+            if rl is None or fn is None:
+                break
+            b = H.binding_sites(fn).get(rl.get('hid'))
+            if not b or b['kind'] != 'let' or b['pat'].get('k') != 'Bind' or b['node'].get('init') is None:
+                break
+            if any(n.get('k') in ('Assign', 'AssignOp') and n['l'].get('k') == 'Path' and n['l'].get('hid') == rl.get('hid') for n in walk(fn['body'])):
+                break
+            init = b['node']['init']
+            if any(x.get('k') == 'Try' for x in walk(init)):
+                tried.append(True)
+            rl = H.root_local(init)
         return rl.get('hid') if rl is not None else None
     if v.get('k') == 'Call' and v['f'].get('k') == 'Path':
         name = T.last(v.get('def'))
@@ -71,7 +86,7 @@ def fold_summary(crate, body, lhid, rhid):
         name = v['m']
         inner_try = [x for a in v['args'] for x in walk(a) if x.get('k') == 'Try']
         order = [hid(v['recv'])] + [hid(a) for a in v['args']]
-        return ('call', name, order == [lhid, rhid] or (rhid is None and order == [lhid]), bool(inner_try))
+        return ('call', name, order == [lhid, rhid] or (rhid is None and order == [lhid]), bool(inner_try) or bool(tried))
     if v.get('k') == 'Binary':
         return ('bin', v['op'], [hid(v['l']), hid(v['r'])] == [lhid, rhid])
     if v.get('k') == 'Unary':
@@ -210,7 +225,7 @@ def run(ck):
                         tok = tok_of.get((op_ty, var))
                         exp = oracle[arity].get(tok, {}).get('fold', {}) if tok else {}
                         want = exp.get(kind, exp.get('*'))
-                        summ = fold_summary(L, body, lhid, rhid)
+                        summ = fold_summary(L, body, lhid, rhid, fn)
                         if summ[0] == 'call':
                             got, order_ok = summ[1], summ[2]
                         elif summ[0] == 'bin':
@@ -239,6 +254,16 @@ def run(ck):
                 if kind == 'Integer' and any(c.get('m', '').startswith('checked_') or T.last(c.get('def') or '').startswith('checked_') for c in H.calls_in(arm['body'])):
                     oks = [c for c in H.calls_in(arm['body']) if c.get('m') in ('ok_or', 'ok_or_else')]
                     ok = len(oks) == 1 and 'IntegerOverflow' in pp(oks[0]['args'][0])
+                    if not oks:
+                        # spelled as a match: `match a { Some(v) => Ok(..(v)), None => Err(IntegerOverflow) }`
+                        for mm in (n for n in walk(arm['body']) if n.get('k') == 'Match' and len(n['arms']) == 2):
+                            none_arm = next((a for a in mm['arms'] if pp(a['pat']).endswith('None') and 'guard' not in a), None)
+                            some_arm = next((a for a in mm['arms'] if pp(a['pat']).startswith('Some(') and 'guard' not in a), None)
+                            if none_arm is not None and some_arm is not None:
+                                nv = [H.strip_refs(v) for v in H.value_exprs(none_arm['body'])]
+                                sv = [H.strip_refs(v) for v in H.value_exprs(some_arm['body'])]
+                                ok = len(nv) == 1 and nv[0].get('k') == 'Call' and (nv[0].get('def') or '').endswith('Result::Err') and 'IntegerOverflow' in pp(nv[0]) and \
+                                    len(sv) == 1 and sv[0].get('k') == 'Call' and (sv[0].get('def') or '').endswith('Result::Ok')
                     ck.ob('R1.2', 'overflow-is-error|%s' % fn['name'], ok, L.loc(arm), 'None from checked_* becomes Err(IntegerOverflow)')
     ck.floor('R1.2', n_arms, 40, 'folding arms summarized')
 
